@@ -223,12 +223,14 @@ void sm4_encrypt_blocks(const SM4_KEY *key, const uint8_t *in, size_t nblocks, u
 	const uint32_t *cp32;
 	__m128i x, y, t0, t1, t2, t3;
 	uint32_t k, *p32, v[4] __attribute__((aligned(0x10)));
+	uint32_t w[16]; // in/out need not be 4-byte aligned
 	int i;
 
 
 	while (nblocks >= 4) {
 
-		cp32 = (const uint32_t *)in;
+		memcpy(w, in, sizeof(w));
+		cp32 = w;
 		t0 = _mm_set_epi32(cp32[12], cp32[ 8], cp32[ 4], cp32[ 0]);
 		t0 = _mm_shuffle_epi8(t0, flp);
 		t1 = _mm_set_epi32(cp32[13], cp32[ 9], cp32[ 5], cp32[ 1]);
@@ -271,7 +273,7 @@ void sm4_encrypt_blocks(const SM4_KEY *key, const uint8_t *in, size_t nblocks, u
 			t3 = x;
 		}
 
-		p32 = (uint32_t *)out;
+		p32 = w;
 
 		_mm_store_si128((__m128i *) v, _mm_shuffle_epi8(t3, flp));
 		p32[ 0] = v[0];
@@ -296,6 +298,7 @@ void sm4_encrypt_blocks(const SM4_KEY *key, const uint8_t *in, size_t nblocks, u
 		p32[ 7] = v[1];
 		p32[11] = v[2];
 		p32[15] = v[3];
+		memcpy(out, w, sizeof(w));
 
 		in += 16 * 4;
 		out += 16 * 4;
